@@ -25,10 +25,10 @@ CLAIMS = {
  "C06": ("Verified validators, all token sequences: on tables passing firstOk/complete/validItems (LR(1) item validity with rank certificates) a syntax error reports index i with w[:i] viable, the reported token is w[i] (or end of input) and cannot continue any sentence, the expected list is EXACTLY the viable continuations in increasing type order, and the final configuration equals that of the run on w[:i]+INVALID, i.e. nothing was reduced with the offending look-ahead (C06_error_token_is_first_offending, C06_expected_set_exact, C06_no_reduction_on_bad_lookahead). GENERATOR LEVEL: for EVERY grammar whose non-terminals are productive the generator model's tables pass validItems with the certificate vcertOf G (total, fuel adequacy proved by pigeonhole; conflicts allowed) — C06_genParser_validItems — and with C02_genParser_complete the three C06 theorems hold for the generated tables of every conflict-free, error-free, reduced grammar (C06_generated_error_token_is_first_offending, C06_generated_expected_set_exact, C06_generated_no_reduction_on_bad_lookahead). The validators are additionally evaluated on every such grammar the run visits (same certificates), which ties them to gocc's actual tables. Earley prefix oracle and INVALID-look-ahead baseline as independent checks; tables tied to the generator model exactly; histories on reused parsers.",
          "Generator-level theorems are about the Lean generator model (exact table equality with gocc on the grammars of the run; fuel of 4096 states assumed not reached); token identity (the very scanner object) is checked behaviourally.",
          "Lean 4 verified validators (item validity, lock-step determinism) + Earley prefix oracle + exact table correspondence"),
- "C07": ("Theorems for ALL tables/inputs: one call of Error equals the declarative RecoverSpec (topmost recovery state, error attribute = offending token + discarded attributes oldest first + expected set, resume at the first acceptable token starting with the offending one, give up at end of input or without a recovery state) and the spec is unique; under RecWF no recovery panic is reachable; shifted tokens reach the result at most once and in input order (TokInv preserved by every step, any tables); a run in which no lookup fails is identical with and without recovery states (inertness). RecWF/NoShiftEOF are evaluated on every generated table of the run. Recovery model tied exactly to compiled parsers on erroneous inputs; oracles: panic/loop freedom on conflict-free grammars, error-free twin grammar, token order. Panics D7/D7b found and fixed.",
-         "Termination of a recovering parse is observed (watchdog/fuel), not proved; 'behaves as the grammar without error alternatives' is the inertness theorem at table level plus the twin-grammar oracle.",
+ "C07": ("Theorems for ALL tables/inputs: one call of Error equals the declarative RecoverSpec (topmost recovery state, error attribute = offending token + discarded attributes oldest first + expected set, resume at the first acceptable token starting with the offending one, give up at end of input or without a recovery state) and the spec is unique; under RecWF no recovery panic is reachable; shifted tokens reach the result at most once and in input order (TokInv preserved by every step, any tables); a run in which no lookup fails is identical with and without recovery states (inertness). GENERATOR LEVEL (Props/C07Gen.lean), for EVERY conflict-free grammar WITH error alternatives (recovery states allowed, which the C02/C03 theorems exclude): every sentence is accepted and the run is, step for step, the run of the parser without recovery (C07_generated_sentence_accepted_inert); the result is the evaluation of a parse tree that uses no production mentioning the error terminal (C07_generated_error_free_tree), and acceptance-without-recovery holds iff the input is a sentence of the grammar with those alternatives removed (C07_generated_accept_iff_without) - 'behaves exactly as if those alternatives were absent'; the naive iff for the recovering parser is refuted by a kernel-evaluated run (recovery accepts non-sentences, as intended). RecWF/NoShiftEOF are evaluated on every generated table of the run. Recovery model tied exactly to compiled parsers on erroneous inputs; oracles: panic/loop freedom on conflict-free grammars, error-free twin grammar, token order. Panics D7/D7b found and fixed.",
+         "Termination of a recovering parse is observed (watchdog/fuel), not proved.",
          "Lean 4 proof (relational spec of Error, step invariant, lock-step inertness) + compiled-parser correspondence + behavioural oracles"),
- "C09": ("Theorems: the FIRST fixed-point loop and the LR(1) closure work list — unbounded loops in the Go code — terminate: a bounded strictly increasing measure shows the model's fuel is never exhausted (C09_first_fixpoint, C09_first_terminates, C09_closure_closed, C09_genParser_states_closed: no Closure call inside genParser is ever truncated); the generated Scan loop is well-founded and reaches end of input; accepting runs are fuel-monotone; lexer epsilon-closure completeness relative to a universe (partial). Observed on the real binary: hostile spellings and action texts x ten flag sets (incl. -o below the working directory, -p), byte-level mutants incl. NUL/0xFF under a 30 s limit; every status-0 run is checked for the complete file set and compiled by the Go compiler. Defects D5 (hang), D8 and D11 (uncompilable output with status 0) found and fixed.",
+ "C09": ("Theorems: the FIRST fixed-point loop and the LR(1) closure work list — unbounded loops in the Go code — terminate: a bounded strictly increasing measure shows the model's fuel is never exhausted (C09_first_fixpoint, C09_first_terminates, C09_closure_closed, C09_genParser_states_closed: no Closure call inside genParser is ever truncated); the generated Scan loop is well-founded and reaches end of input; accepting runs are fuel-monotone; the lexer's epsilon-move work list (Item.Emoves, an unbounded loop with a visited set) computes exactly the basic items epsilon-reachable from its argument for EVERY lexical part and item: the model's fuel is never exhausted (C09_emoves_iff, universe of all dotted positions constructed and counted against the pattern size). Observed on the real binary: hostile spellings and action texts x ten flag sets (incl. -o below the working directory, -p), byte-level mutants incl. NUL/0xFF under a 30 s limit; every status-0 run is checked for the complete file set and compiled by the Go compiler. Defects D5 (hang), D8 and D11 (uncompilable output with status 0) found and fixed.",
          "Item-set enumeration (GetItemSets, lexer ItemSets.Closure) and the front-end scanner/parser loops are modelled with fuel without an adequacy theorem; compilability is the Go compiler's verdict on sampled grammars.",
          "Lean 4 termination proofs (bounded measures) for the unbounded generator loops + timeout-guarded runs of the real binary + Go compiler"),
  "C08": ("Theorems (all tables, bytes, call counts): every token's offset/line/column is the position rule applied to the runes before it, the cursor stays on rune boundaries, lexemes are adjacent and inside the input, literal = consumed bytes, progress, EOF sticky. Executable position/tiling oracle on compiled lexers' streams.",
